@@ -2,6 +2,7 @@ import RsddModel.Driver.BddStream
 import RsddModel.Driver.RingStream
 import RsddModel.Driver.TblStream
 import RsddModel.Driver.WmcStream
+import RsddModel.Driver.SddStream
 /-!
 # Line-protocol driver
 
@@ -22,6 +23,7 @@ def judge (line : String) : String :=
     | "tbl" => checkTblLine kvs rhs
     | "lru" => checkLruLine kvs rhs
     | "wmc" => checkWmcLine kvs rhs
+    | "sdd" => checkSddLine kvs rhs
     | _ => s!"FAIL PARSE unknown stream {stream}"
 
 partial def loop (h : IO.FS.Stream) : IO Unit := do
